@@ -10,9 +10,11 @@ import "verif/exech/driver"
 func main() {
 	q := []driver.ProbeConfig{driver.CfgDefault, driver.CfgWorker1, driver.CfgWorker2, driver.CfgRenamedRoots}
 	t := []driver.ProbeConfig{driver.CfgDefault, driver.CfgWorker1, driver.CfgWorker2, driver.CfgRenamedRoots, driver.CfgFollowSchema, driver.CfgFuncSyntax}
-	driver.SchedCheck("C06", q, t, map[string]int{"quick": 3, "thorough": 4}, []string{
+	sq := []driver.ProbeConfig{driver.CfgDefault, driver.CfgWorker2}
+	st := []driver.ProbeConfig{driver.CfgDefault, driver.CfgWorker1, driver.CfgWorker2, driver.CfgFollowSchema}
+	driver.SchedCheck2("C06", q, t, sq, st, map[string]int{"quick": 3, "thorough": 4}, []string{
 		"scheduling points: every resolver call (a yield inside the universal resolver), lock acquisitions, WaitGroup waits, atomics, channel operations, semaphore operations of the instrumented generated code and runtime",
 		"memory-level data races are invisible to a cooperative scheduler; they are the subject of the separate free-running -race pass (not the deciding step)",
-		"corpus of operations (not all operations): C01 covers breadth on the default schedule",
+		"corpus of operations (not all operations) over both probe schemas (exec, shapes): C01 covers breadth on the default schedule",
 	})
 }
